@@ -361,6 +361,52 @@ theorem C20_solid_angle_reads (seq : List Bool) :
 
 example : (readSeq {} [false, true, false]).map List.length = [145, 577, 145] := by decide +kernel
 
+/-! ### The lazily built `tregenza_*` / `reinhart_*` properties -/
+
+/-- Getter by getter: whatever a getter stores goes into the slot of the property that is documented to
+hold exactly that content (no getter fills another property's slot with foreign data). -/
+theorem C20_lazy_writes_designated (p : LazyProp) : ∀ w ∈ p.writes, w.2 = w.1.designated := by
+  cases p <;> decide
+
+/-- Read-order independence of all eleven lazy properties: on an object whose slots are empty or correctly
+filled (a fresh `ViewSphere`, or the module singleton after any earlier reads), every read of every property,
+in any order and with any repetitions, returns the content documented for that property — e.g. the 145
+vectors of `dome_patches(1)` for `tregenza_dome_vectors`, also after `tregenza_dome_mesh_high_res` — and
+leaves the object in such a state. -/
+theorem C20_lazy_reads (st : LState) (h : LazyInv st) (seq : List LazyProp) :
+    lazyReadSeq st seq = seq.map fun p => some p.designated := by
+  induction seq generalizing st with
+  | nil => simp [lazyReadSeq]
+  | cons p rest ih =>
+    simp only [lazyReadSeq, List.map_cons]
+    unfold LState.read
+    cases hp : st p.slot with
+    | some c =>
+      have : c = p.designated := by
+        rcases h p.slot with h' | h'
+        · rw [hp] at h'; cases h'
+        · rw [hp] at h'; exact Option.some.inj h'
+      simp only [this]
+      exact congrArg _ (ih st h)
+    | none =>
+      simp only [lazy_assign_own]
+      exact congrArg _ (ih _ (lazy_assign_inv st _ h (C20_lazy_writes_designated p)))
+
+/-- … in particular on a fresh object. -/
+theorem C20_lazy_reads_fresh (seq : List LazyProp) :
+    lazyReadSeq LState.empty seq = seq.map fun p => some p.designated :=
+  C20_lazy_reads _ (fun _ => Or.inl rfl) seq
+
+/-- Sizes of what the properties return: 145 / 577 dome vectors and solid angles (aligned one-to-one),
+290 / 1154 sphere vectors, meshes of 150 / 588 / 300 / 1176 faces and 1314 for the display mesh. -/
+theorem C20_lazy_counts :
+    LazyProp.all.map (fun p => p.designated.count) =
+      [.ok 145, .ok 290, .ok 150, .ok 1314, .ok 300, .ok 145, .ok 577, .ok 1154, .ok 588, .ok 1176, .ok 577] := by
+  decide +kernel
+
+example : lazyReadSeq LState.empty [.tDomeMeshHi, .tDomeVec] =
+    [some (.domeMesh 3 true), some (.domeVec 1 false)] := by decide
+
 end Dome
 
 /-! ### Projections (over the reals) -/
